@@ -751,7 +751,7 @@ def _work(item: tuple) -> dict:
     for k, v in res["labels"].items():
         L(k, v)
     for k, v in prog.labels.items():
-        if k.startswith("narrow:") or k.startswith("excluded:") or k in ("loop_carried_variables", "uses_of_narrowed", "match_statements", "try_statements", "for_loops", "while_loops", "with_swallow", "with_guard", "nested_functions", "comprehensions", "calls_with_keywords", "generic_functions", "finally_blocks", "inferred_locals"):
+        if k.startswith("narrow:") or k.startswith("excluded:") or k.startswith("shape:") or k in ("loop_carried_variables", "uses_of_narrowed", "match_statements", "try_statements", "for_loops", "while_loops", "with_swallow", "with_guard", "nested_functions", "comprehensions", "calls_with_keywords", "generic_functions", "finally_blocks", "inferred_locals"):
             L("gen:" + k, v)
     if res["status"] == "rejected":
         for e in res.get("errors", [])[:2]:
